@@ -10,6 +10,7 @@ func init() {
 	vpRegister("vpH_C06_visit", vpH_C06_visit)
 	vpRegister("vpH_C06_blocks", vpH_C06_blocks)
 	vpRegister("vpH_C06_lookahead", vpH_C06_lookahead)
+	vpRegister("vpH_C06_twosegs", vpH_C06_twosegs)
 }
 
 // vpVisitCheck visits document n, stopping after `stop` values (stop<0: never),
@@ -219,4 +220,66 @@ func vpH_C06_lookahead() {
 		vpVisitCheck("last of block 1 again", seg, 255, nil, -1)
 	}
 	vpReach("C06 lookahead end")
+}
+
+// C06 (d): two segments of the same shape (so their stored blocks have the
+// same compressed extent) but different stored values, read alternately in
+// one goroutine (the pooled visit context is recycled), and merged through the
+// re-encode path (one deletion in each input, one context for all inputs):
+// every document returns its own values, never the other segment's.
+func vpH_C06_twosegs() {
+	g := vpNewGen(0)
+	n := 2
+	var ks []int
+	for i := 0; i < n; i++ {
+		ks = append(ks, []int{4, 5, 9}[vpChoice("template", 3)])
+	}
+	var a, b []*vpDoc
+	for i, k := range ks {
+		a = append(a, g.doc(k, i))
+	}
+	for i, k := range ks {
+		b = append(b, g.doc(k, i))
+	}
+	g.done()
+	mode := uint32(1025)
+	sa, sb := vpBuild(a, mode), vpBuild(b, mode)
+	if vpChoice("loaded", 2) == 1 {
+		sa, sb = vpLoad(vpPersist(sa)), vpLoad(vpPersist(sb))
+	}
+	ea, eb := vpBuildExpect(a, vpFieldNames(a)), vpBuildExpect(b, vpFieldNames(b))
+	vpPoolReuse(true)
+	if vpChoice("how", 2) == 0 {
+		order := [][2]int{{0, 0}, {1, 0}, {0, 1}, {1, 1}, {0, 0}}
+		if vpChoice("order", 2) == 1 {
+			order = [][2]int{{1, 1}, {0, 1}, {1, 0}, {0, 0}}
+		}
+		for _, o := range order {
+			if o[0] == 0 {
+				vpVisitCheck("segment A", sa, uint64(o[1]), ea.stored[o[1]], -1)
+			} else {
+				vpVisitCheck("segment B", sb, uint64(o[1]), eb.stored[o[1]], -1)
+			}
+		}
+		vpReach("C06 two segments alternately")
+	} else {
+		da, db := roaring.New(), roaring.New()
+		da.Add(uint32(vpChoice("drop-a", 2)))
+		db.Add(uint32(vpChoice("drop-b", 2)))
+		mb, _ := vpMergeBytes([]*Segment{sa, sb}, []*roaring.Bitmap{da, db}, mode)
+		m := vpLoad(mb)
+		vpAssert(m.Count() == 2, "Count")
+		wa, wb := ea.stored[1], eb.stored[1]
+		if da.Contains(1) {
+			wa = ea.stored[0]
+		}
+		if db.Contains(1) {
+			wb = eb.stored[0]
+		}
+		vpVisitCheck("merged, from A", m, 0, wa, -1)
+		vpVisitCheck("merged, from B", m, 1, wb, -1)
+		vpReach("C06 two segments merged")
+	}
+	vpPoolReuse(false)
+	vpReach("C06 twosegs end")
 }
